@@ -566,3 +566,238 @@ Proof.
   apply andb_true_iff in Es as [Hd Hn]. exists sni, s'. repeat split; try assumption.
   apply negb_true_iff in Hn. apply beq_false_neq. exact Hn.
 Qed.
+
+(* ------------------------------------------------------------------ composite *)
+Section MapMore.
+Context {V : Type}.
+Lemma find_key_app_none (m : amap V) a b :
+  (forall c, In c a -> mget c m = None) -> find_key m (a ++ b) = find_key m b.
+Proof.
+  induction a as [|x a IH]; simpl; intro H; [reflexivity|].
+  rewrite (H x (or_introl eq_refl)). apply IH. intros c Hc. apply H. right. exact Hc.
+Qed.
+Lemma find_key_app_some (m : amap V) a b r :
+  find_key m a = Some r -> find_key m (a ++ b) = Some r.
+Proof.
+  induction a as [|x a IH]; simpl; intro H; [discriminate|].
+  destruct (mget x m); [exact H|apply IH; exact H].
+Qed.
+End MapMore.
+
+(* two maps with the same domain pick the same candidate *)
+Lemma find_key_same_domain {A B} (m1 : amap A) (m2 : amap B) cs k v :
+  (forall c, In c cs -> (mget c m1 = None <-> mget c m2 = None)) ->
+  find_key m1 cs = Some (k, v) -> exists w, find_key m2 cs = Some (k, w).
+Proof.
+  induction cs as [|c cs IH]; simpl; intros Hd H; [discriminate|].
+  destruct (mget c m1) as [v1|] eqn:E1.
+  - injection H as <- <-. destruct (mget c m2) as [w|] eqn:E2; [eauto|].
+    apply (Hd c (or_introl eq_refl)) in E2. congruence.
+  - destruct (mget c m2) as [w|] eqn:E2.
+    + pose proof (proj1 (Hd c (or_introl eq_refl)) E1). congruence.
+    + apply IH; [|exact H]. intros c' Hc. apply Hd. right. exact Hc.
+Qed.
+
+(* domain and values of the vhost table *)
+Lemma vinsert_get sites : forall i e k j,
+  mget k (vinsert i sites e) = Some j ->
+  (exists s, nth_error sites (j - i) = Some s /\ (i <= j)%nat /\ vhost_key (s_addr s) = k) \/ mget k e = Some j.
+Proof.
+  induction sites as [|s sites IH]; simpl; intros i e k j H; [right; exact H|].
+  apply IH in H. destruct H as [[s' [Hn [Hle Hk]]]|H].
+  - left. exists s'. replace (j - i)%nat with (S (j - S i)) by lia. simpl. repeat split; [exact Hn|lia|exact Hk].
+  - rewrite mget_mset in H. destruct (beq (vhost_key (s_addr s)) k) eqn:E.
+    + injection H as <-. left. exists s. rewrite Nat.sub_diag. simpl. apply beq_eq in E. repeat split; [lia|exact E].
+    + right. exact H.
+Qed.
+
+Lemma vinsert_none sites : forall i e k,
+  mget k (vinsert i sites e) = None <->
+  (mget k e = None /\ forall s, In s sites -> vhost_key (s_addr s) <> k).
+Proof.
+  induction sites as [|s sites IH]; simpl; intros i e k.
+  - split; [intro H; split; [exact H|intros ? []]|intros [H _]; exact H].
+  - rewrite IH. rewrite mget_mset. split.
+    + intros [H1 H2]. destruct (beq (vhost_key (s_addr s)) k) eqn:E; [discriminate|].
+      split; [exact H1|]. intros s' [<-|Hin]; [apply beq_false_neq; exact E|apply H2; exact Hin].
+    + intros [H1 H2]. split.
+      * destruct (beq (vhost_key (s_addr s)) k) eqn:E; [|exact H1].
+        apply beq_eq in E. exfalso. apply (H2 s (or_introl eq_refl)). exact E.
+      * intros s' Hin. apply H2. right. exact Hin.
+Qed.
+
+(* domain of the TLS group *)
+Lemma mk_loop_none dc bad cs : forall i prev m m' k,
+  mk_loop dc bad i prev cs m = inr m' ->
+  (mget k m' = None <-> (mget k m = None /\ forall c, In (Some c) cs -> key_of (host c) <> k)).
+Proof.
+  induction cs as [|o cs IH]; simpl; intros i prev m m' k H.
+  - injection H as <-. split; [intro H; split; [exact H|intros ? []]|intros [H _]; exact H].
+  - destruct o as [c0|].
+    + destruct (match prev with Some p => negb (Bool.eqb (enabled c0) p) | None => false end); [discriminate|].
+      destruct (build dc bad c0) as [ob|]; [|discriminate].
+      destruct (match mget (host c0) m with Some (_, c2, ob2) => negb (compat c0 c2 ob ob2) | None => false end);
+        [discriminate|].
+      rewrite (IH _ _ _ _ k H). rewrite mget_mset. split.
+      * intros [H1 H2]. destruct (beq (key_of (host c0)) k) eqn:E; [discriminate|].
+        split; [exact H1|]. intros c [Heq|Hin]; [injection Heq as <-; apply beq_false_neq; exact E|apply H2; exact Hin].
+      * intros [H1 H2]. split.
+        -- destruct (beq (key_of (host c0)) k) eqn:E; [|exact H1].
+           apply beq_eq in E. exfalso. apply (H2 c0 (or_introl eq_refl)). exact E.
+        -- intros c Hin. apply H2. right. exact Hin.
+    + rewrite (IH _ _ _ _ k H). split.
+      * intros [H1 H2]. split; [exact H1|]. intros c [Heq|Hin]; [discriminate|apply H2; exact Hin].
+      * intros [H1 H2]. split; [exact H1|]. intros c Hin. apply H2. right. exact Hin.
+Qed.
+
+(* own settings when no config uses an unspecified-address spelling *)
+Definition plain_keys (cs : list (option tcfg)) : Prop :=
+  forall c, In (Some c) cs -> key_of (host c) = host c.
+
+Definition own_ok' dc bad (done : list (option tcfg)) (m : amap gval) : Prop :=
+  forall c, In (Some c) done ->
+    exists i c' ob, mget (host c) m = Some (i, c', ob) /\ build dc bad c = Some ob.
+
+Lemma mk_loop_own' dc bad done cs prev m m' :
+  plain_keys (done ++ cs) ->
+  own_ok' dc bad done m ->
+  mk_loop dc bad (length done) prev cs m = inr m' ->
+  own_ok' dc bad (done ++ cs) m'.
+Proof.
+  revert done prev m; induction cs as [|o cs IH]; intros done prev m Hpk Hinv H.
+  - simpl in H. injection H as <-. rewrite app_nil_r. exact Hinv.
+  - assert (Hlen : length (done ++ [o]) = S (length done)) by (rewrite app_length; simpl; lia).
+    assert (Heq : done ++ o :: cs = (done ++ [o]) ++ cs) by (rewrite <- app_assoc; reflexivity).
+    rewrite Heq. rewrite Heq in Hpk.
+    destruct o as [c0|]; simpl in H.
+    + assert (Hk0 : key_of (host c0) = host c0).
+      { apply Hpk. apply in_or_app. left. apply in_or_app. right. left. reflexivity. }
+      rewrite Hk0 in H.
+      destruct (match prev with Some p => negb (Bool.eqb (enabled c0) p) | None => false end); [discriminate|].
+      destruct (build dc bad c0) as [ob|] eqn:Eb; [|discriminate].
+      destruct (mget (host c0) m) as [[[i2 c2] ob2]|] eqn:Eg.
+      * destruct (compat c0 c2 ob ob2) eqn:Ec; simpl in H; [|discriminate].
+        rewrite <- Hlen in H. eapply IH; [exact Hpk| |exact H].
+        intros c Hin. rewrite mget_mset.
+        destruct (beq (host c0) (host c)) eqn:Ek.
+        -- apply beq_eq in Ek.
+           apply in_app_or in Hin. destruct Hin as [Hin|[Hc|[]]].
+           ++ destruct (Hinv c Hin) as [i [c' [ob' [Hg Hb]]]].
+              rewrite <- Ek in Hg. rewrite Eg in Hg. injection Hg as <- <- <-.
+              apply compat_same in Ec. subst ob2. eauto.
+           ++ injection Hc as <-. eauto.
+        -- apply in_app_or in Hin. destruct Hin as [Hin|[Hc|[]]].
+           ++ apply Hinv; assumption.
+           ++ injection Hc as <-. rewrite beq_refl in Ek. discriminate.
+      * simpl in H. rewrite <- Hlen in H. eapply IH; [exact Hpk| |exact H].
+        intros c Hin. rewrite mget_mset.
+        destruct (beq (host c0) (host c)) eqn:Ek.
+        -- apply beq_eq in Ek.
+           apply in_app_or in Hin. destruct Hin as [Hin|[Hc|[]]].
+           ++ destruct (Hinv c Hin) as [i [c' [ob' [Hg Hb]]]].
+              rewrite <- Ek in Hg. rewrite Eg in Hg. discriminate.
+           ++ injection Hc as <-. eauto.
+        -- apply in_app_or in Hin. destruct Hin as [Hin|[Hc|[]]].
+           ++ apply Hinv; assumption.
+           ++ injection Hc as <-. rewrite beq_refl in Ek. discriminate.
+    + rewrite <- Hlen in H. eapply IH; [exact Hpk| |exact H].
+      intros c Hin. apply in_app_or in Hin. destruct Hin as [Hin|[Hc|[]]]; [|discriminate].
+      apply Hinv; assumption.
+Qed.
+
+Lemma group_own_settings' dc bad cs g c :
+  plain_keys cs -> make_tls_config dc bad cs = MkGroup g -> In (Some c) cs ->
+  exists i c' ob, mget (host c) g = Some (i, c', ob) /\ build dc bad c = Some ob.
+Proof.
+  intro Hpk. unfold make_tls_config. destruct cs as [|o cs]; [discriminate|].
+  destruct (mk_loop dc bad 0 None (o :: cs) []) as [e|m'] eqn:E; [discriminate|].
+  destruct (first_enabled (o :: cs)); [|discriminate]. intro H. injection H as <-.
+  apply (mk_loop_own' dc bad [] (o :: cs) None [] m'); [exact Hpk| |exact E].
+  intros c0 [].
+Qed.
+
+Lemma group_domain dc bad cs g k :
+  make_tls_config dc bad cs = MkGroup g ->
+  (mget k g = None <-> forall c, In (Some c) cs -> key_of (host c) <> k).
+Proof.
+  unfold make_tls_config. destruct cs as [|o cs]; [discriminate|].
+  destruct (mk_loop dc bad 0 None (o :: cs) []) as [e|m'] eqn:E; [discriminate|].
+  destruct (first_enabled (o :: cs)); [|discriminate]. intro H. injection H as <-.
+  rewrite (mk_loop_none _ _ _ _ _ _ _ k E). simpl. split; [intros [_ H]; exact H|intro H; split; [reflexivity|exact H]].
+Qed.
+
+Lemma to_lower_nonempty s : s <> [] -> to_lower s <> [].
+Proof. destruct s; [congruence|]. simpl. discriminate. Qed.
+
+Lemma first_match_cases e hs r :
+  first_match e hs = Some r -> exists h, In h hs /\ match_host e h = Some r.
+Proof.
+  induction hs as [|h hs IH]; simpl; [discriminate|].
+  destruct (match_host e h) as [x|] eqn:E.
+  - intro H. injection H as <-. exists h. split; [left; reflexivity|exact E].
+  - intro H. destruct (IH H) as [h' [Hin Hm]]. exists h'. split; [right; exact Hin|exact Hm].
+Qed.
+
+Theorem clientauth_policy_governs dc bad sites g dflt conn sni rhost v s :
+  make_tls_config dc bad (map (fun s => Some (s_tls s)) sites) = MkGroup g ->
+  (forall s, In s sites -> vhost_key (s_addr s) = host (s_tls s) /\ key_of (host (s_tls s)) = host (s_tls s)) ->
+  match_host (vhosts sites) (bs "0.0.0.0"%string) = None ->
+  match_host (vhosts sites) (bs "::"%string) = None ->
+  mget (bs "*"%string) (vhosts sites) = None ->
+  serve sites (Some sni) rhost = Served v -> nth_error sites v = Some s -> demands (s_tls s) = true ->
+  trim_space sni = sni -> sni <> [] ->
+  route_host rhost = to_lower (req_hostname rhost) ->
+  exists k i c ob, get_config g dflt conn sni = Found k (i, c, ob) /\ build dc bad (s_tls s) = Some ob.
+Proof.
+  intros Hmk Hsites Hf1 Hf2 Hstar Hserve Hnth Hdem Htrim Hne Hroute.
+  pose proof (strict_sni_host _ _ _ _ _ Hserve Hnth Hdem) as Hsni.
+  set (h := to_lower sni).
+  assert (Hname : effective_name dflt sni = h).
+  { unfold effective_name, normalized_name. rewrite Htrim. fold h.
+    destruct (is_nil h) eqn:E; [|reflexivity]. exfalso. apply (to_lower_nonempty sni Hne). fold h.
+    destruct h; [reflexivity|discriminate]. }
+  assert (Hhne : h <> []) by (apply to_lower_nonempty; exact Hne).
+  (* the routed site and its key *)
+  unfold serve in Hserve. rewrite Hroute, <- Hsni in Hserve. fold h in Hserve.
+  destruct (vmatch (vhosts sites) h) as [[kk j]|] eqn:Ev; [|discriminate].
+  destruct (nth_error sites j) as [s'|] eqn:Ej; [|discriminate].
+  destruct (strict_fail (s_tls s') (Some sni) (req_hostname rhost)); [discriminate|].
+  injection Hserve as ->. rewrite Hnth in Ej. injection Ej as <-.
+  (* kk is the first present key among h :: wild_cands h ++ [""] *)
+  assert (Hfk : find_key (vhosts sites) (h :: wild_cands h ++ [[]]) = Some (kk, v)).
+  { unfold vmatch, fallback_hosts in Ev. cbn [first_match] in Ev.
+    change (h :: wild_cands h ++ [[]]) with ((h :: wild_cands h) ++ [[]]).
+    destruct (match_host (vhosts sites) h) as [x|] eqn:E0.
+    - injection Ev as ->. apply find_key_app_some. exact E0.
+    - rewrite Hf1, Hf2 in Ev.
+      rewrite find_key_app_none; [|apply find_key_none; exact E0].
+      destruct (match_host (vhosts sites) []) as [x|] eqn:E3; [|discriminate]. injection Ev as ->.
+      unfold match_host in E3. change (wild_cands []) with [bs "*"%string] in E3.
+      cbn [find_key] in E3. cbn [find_key]. destruct (mget [] (vhosts sites)) as [w|]; [exact E3|].
+      rewrite Hstar in E3. discriminate. }
+  (* same domain *)
+  set (cfgs := map (fun s => Some (s_tls s)) sites) in *.
+  assert (Hdom : forall k, mget k (vhosts sites) = None <-> mget k g = None).
+  { intro k. unfold vhosts. rewrite vinsert_none. rewrite (group_domain _ _ _ _ k Hmk). split.
+    - intros [_ H] c Hin. unfold cfgs in Hin. apply in_map_iff in Hin. destruct Hin as [s0 [Hs0 Hin]].
+      injection Hs0 as <-. destruct (Hsites _ Hin) as [H1 H2]. rewrite H2, <- H1. apply H. exact Hin.
+    - intro H. split; [reflexivity|]. intros s0 Hin. destruct (Hsites _ Hin) as [H1 H2].
+      rewrite H1, <- H2. apply H. unfold cfgs. apply in_map_iff. exists s0. split; [reflexivity|exact Hin]. }
+  destruct (find_key_same_domain (vhosts sites) g _ kk v (fun c _ => Hdom c) Hfk) as [[[i c] ob] Hg].
+  exists kk, i, c, ob. split.
+  - unfold get_config. rewrite Hname.
+    destruct (is_nil h) eqn:E; [destruct h; [congruence|discriminate]|]. rewrite Hg. reflexivity.
+  - (* the entry under kk holds settings equal to the routed site's own *)
+    destruct (find_key_some _ _ _ _ Hfk) as [Hgv _].
+    unfold vhosts in Hgv. apply vinsert_get in Hgv. destruct Hgv as [[s0 [Hn0 [_ Hk0]]]|Hgv]; [|discriminate].
+    rewrite Nat.sub_0_r in Hn0. rewrite Hnth in Hn0. injection Hn0 as <-.
+    assert (Hin : In s sites) by (eapply nth_error_In; exact Hnth).
+    destruct (Hsites _ Hin) as [H1 H2]. rewrite H1 in Hk0.
+    assert (Hpk : plain_keys cfgs).
+    { intros c0 Hc0. unfold cfgs in Hc0. apply in_map_iff in Hc0. destruct Hc0 as [s0 [Hs0 Hin0]].
+      injection Hs0 as <-. apply (Hsites _ Hin0). }
+    destruct (group_own_settings' dc bad cfgs g (s_tls s) Hpk Hmk) as [i' [c' [ob' [Hg' Hb']]]].
+    { unfold cfgs. apply in_map_iff. exists s. split; [reflexivity|exact Hin]. }
+    rewrite Hk0 in Hg'. destruct (find_key_some _ _ _ _ Hg) as [Hgg _]. rewrite Hgg in Hg'.
+    injection Hg' as <- <- <-. exact Hb'.
+Qed.
